@@ -32,6 +32,13 @@ Section ListOps.
     | x :: r => fold_left (fun a b => if ltb_ b a then b else a) r x
     end.
 
+  (** np.max over a 1-D array (nan_ for the empty array, where NumPy raises) *)
+  Definition max_list (l : list T) : T :=
+    match l with
+    | [] => nan_
+    | x :: r => fold_left (fun a b => if ltb_ a b then b else a) r x
+    end.
+
   (** x[mask] *)
   Definition mask_filter (l : list T) (m : list bool) : list T :=
     map fst (filter snd (combine l m)).
